@@ -134,7 +134,9 @@ def doPat (sp : List Char) (fields : List String) : Cur × String :=
         | .error e => "err:" ++ errName e
         | .ok b =>
           let kind := match b.kind with | .wrap => "wrap" | .fancy _ => "fancy"
-          s!"{kind} {b.nGroups} ws={b01 (wellShaped b.raw)} closed={b01 (closed b.raw)} nel={b01 (noEmptyLoop b.raw)} ncl={b01 (noCondLeak b.raw)} mod={b01 modelled}"
+          -- the decidable side conditions of the proved compiler-correctness theorem (`C01_vm_correct_s2`)
+          let s2 := match b.kind with | .wrap => false | .fancy prog => s2ok b.raw && noDeleg prog.body
+          s!"{kind} {b.nGroups} ws={b01 (wellShaped b.raw)} closed={b01 (closed b.raw)} nel={b01 (noEmptyLoop b.raw)} ncl={b01 (noCondLeak b.raw)} mod={b01 modelled} s2={b01 s2}"
       (cur, ans)
     | _ => (default, "bad-tree")
   | _ => (default, "bad-op")
